@@ -364,7 +364,12 @@ func (sv *negServer) serve(conn net.Conn) {
 			sv.rec("resume/"+hx(previd)+"/"+h, secure)
 			switch m["res"] {
 			case "same":
-				w("<resumed xmlns='" + nsSM + "' previd='" + xmlAttrEscape(previd) + "' h='0'/>")
+				// h: how many of the client's stanzas the server has handled (script key resh, default 0)
+				rh := m["resh"]
+				if rh == "" {
+					rh = "0"
+				}
+				w("<resumed xmlns='" + nsSM + "' previd='" + xmlAttrEscape(previd) + "' h='" + rh + "'/>")
 			case "otherid":
 				w("<resumed xmlns='" + nsSM + "' previd='not-" + xmlAttrEscape(previd) + "' h='0'/>")
 			case "noprev":
@@ -731,6 +736,23 @@ func (np negProp) Exec(c Case) []string {
 				scheme = op[1]
 			}
 			obs = append(obs, wsConn(cfg.Insecure, scheme))
+		case "hold", "heldcheck":
+			// hold n k: the application has sent n stanzas on the stream-managed session, the server has acknowledged
+			// k of them: n-k stay held. heldcheck: what the session holds now (a confirmed resumption keeps it).
+			r := "noqueue"
+			if client.Session != nil && client.Session.SMState.UnAckQueue != nil {
+				q := client.Session.SMState.UnAckQueue
+				if op[0] == "hold" {
+					n, _ := strconv.Atoi(op[1])
+					k, _ := strconv.Atoi(op[2])
+					for j := 0; j < n; j++ {
+						q.Push(&stanza.UnAckedStz{Stz: fmt.Sprintf("<message id='held%d'/>", j)})
+					}
+					q.PopN(k)
+				}
+				r = "held:" + c17slice(q)
+			}
+			obs = append(obs, r)
 		case "setinbound":
 			// stanzas received meanwhile: counted by the REAL receive loop on the kept session (fed through a stub
 			// transport), so that the count the next <resume/> presents is the one the loop keeps; only a value
@@ -1046,7 +1068,7 @@ func (s negScript) op() []string {
 	for _, n := range names {
 		hn = append(hn, hx(n))
 	}
-	keys := []string{"conn", "f1", "tls", "hs", "cert", "roots", "skip", "sn", "dom", "o2", "f2", "auth", "o3", "f3", "res", "bind", "sess", "en", "smid", "jid", "mute"}
+	keys := []string{"conn", "f1", "tls", "hs", "cert", "roots", "skip", "sn", "dom", "o2", "f2", "auth", "o3", "f3", "res", "bind", "sess", "en", "smid", "jid", "mute", "resh"}
 	out := []string{"conn"}
 	for _, k := range keys {
 		out = append(out, k+"="+s[k])
@@ -1146,6 +1168,19 @@ func (np negProp) Generate(rng *rand.Rand, tier string, st *Stats) []Case {
 				}
 			}
 		}
+	}
+
+	// held stanzas across a reconnection: n sent, k acknowledged before the loss; the server confirms the resumption and
+	// states how many it has handled (k: nothing more is acknowledged by the resumption) - the n-k others stay held, with
+	// their numbers; after a refusal the new session holds nothing of the old one (C10's check looks at that)
+	if np.id == "C11" {
+		for _, nk := range [][2]int{{3, 2}, {4, 0}, {5, 5}, {1, 0}, {6, 3}} {
+			mk(true, true, happy(false, false, true).op(), []string{"hold", strconv.Itoa(nk[0]), strconv.Itoa(nk[1])},
+				happy(false, false, true).with("resh", strconv.Itoa(nk[1])).op(), []string{"heldcheck"},
+				happy(false, false, true).with("resh", strconv.Itoa(nk[1])).op(), []string{"heldcheck"})
+			st.Inc("held_stanzas_across_resumption")
+		}
+		mk(true, true, happy(false, false, true).op(), []string{"hold", "3", "1"}, happy(false, false, true).with("res", "failed", "smid", hx("sm-n")).op(), []string{"heldcheck"})
 	}
 
 	// a stream-management id with markup characters in it: what the client presents on the next connection is that
